@@ -300,3 +300,47 @@ def test_c01_foerster_pure_dephasing_hermiticity():
     for a in range(n):
         for b in range(n):
             assert abs(numpy.conj(R[a, b, a, b]) - R[b, a, b, a]) < 1e-12 * max(1.0, abs(R).max())
+
+
+_Z = numpy.array([[0.0, 1.0, 0.5j], [1.0, 1.0, 0.3 + 0.2j], [-0.5j, 0.3 - 0.2j, 2.0]])
+
+
+def test_c04_real_storage_in_complex_eigenbasis():
+    from quantarhei.qm import TransitionDipoleMoment
+    from quantarhei.qm.hilbertspace.operators import SelfAdjointOperator
+    d = numpy.zeros((3, 3, 3))
+    d[0, 1, :] = d[1, 0, :] = [1.0, 0.2, 0.0]
+    d[0, 2, :] = d[2, 0, :] = [0.3, -0.5, 0.7]
+    D = TransitionDipoleMoment(data=d.copy())
+    with qr.eigenbasis_of(SelfAdjointOperator(data=_Z.copy())):
+        _ = D.data
+    assert numpy.allclose(D.data, d, atol=1e-12)
+
+
+def test_c04_rank4_transform_in_complex_eigenbasis():
+    from quantarhei.qm import SuperOperator, Operator
+    from quantarhei.qm.hilbertspace.operators import SelfAdjointOperator
+    rng = numpy.arange(81, dtype=float).reshape(3, 3, 3, 3)
+    R = numpy.cos(rng * 0.37) + 1j * numpy.sin(rng * 0.11)
+    B = numpy.array([[1, 2 + 1j, 0], [0.5, -1, 3], [1j, 0, 2]], dtype=complex)
+    sup, op = SuperOperator(data=R.copy()), Operator(data=B.copy())
+    ref = numpy.tensordot(R, B)
+    with qr.eigenbasis_of(SelfAdjointOperator(data=_Z.copy())):
+        out = Operator(data=numpy.tensordot(sup.data, op.data))
+    assert numpy.allclose(out.data, ref, atol=1e-10)
+
+
+def test_c04_operator_form_apply_in_complex_eigenbasis():
+    from quantarhei.qm import LindbladForm, SystemBathInteraction, Operator
+    from quantarhei.qm.hilbertspace.operators import SelfAdjointOperator
+    hh = qr.Hamiltonian(data=numpy.array([[0.0, 0.2, 0.0], [0.2, 1.0, -0.3], [0.0, -0.3, 1.5]]))
+    k1 = numpy.zeros((3, 3)); k1[0, 1] = 1.0
+    k2 = numpy.zeros((3, 3)); k2[2, 1] = 1.0; k2[1, 1] = 0.5
+    sbi = SystemBathInteraction([Operator(data=k1), Operator(data=k2)], rates=[0.3, 0.7])
+    L = LindbladForm(hh, sbi, as_operators=True)
+    r = numpy.array([[0.5, 0.1 + 0.2j, 0], [0.1 - 0.2j, 0.3, 0.05j], [0, -0.05j, 0.2]])
+    rho = qr.ReducedDensityMatrix(data=r.copy())
+    ref = numpy.array(L.apply(rho).data)
+    with qr.eigenbasis_of(SelfAdjointOperator(data=_Z.copy())):
+        out = L.apply(rho)
+    assert numpy.allclose(out.data, ref, atol=1e-10)
